@@ -212,7 +212,11 @@ class StdFileSystem(FileSystem):
 
 
 class MemoryFile(File):
-  """Memory file."""
+  """Memory file.
+
+  A `MemoryFile` is a handle with a position of its own: all handles of a file
+  share the content (`buffer`) but not the position.
+  """
 
   def __init__(self, buffer: io.IOBase):
     super().__init__()
@@ -220,30 +224,46 @@ class MemoryFile(File):
     self._pos = 0
 
   def read(self, size: Optional[int] = None) -> Union[str, bytes]:
-    return self._buffer.read(size)
+    self._buffer.seek(self._pos)
+    content = self._buffer.read(size)
+    self._pos = self._buffer.tell()
+    return content
 
   def readline(self) -> Union[str, bytes]:
-    return self._buffer.readline()
+    self._buffer.seek(self._pos)
+    line = self._buffer.readline()
+    self._pos = self._buffer.tell()
+    return line
 
   def write(self, content: Union[str, bytes]) -> None:
+    self._buffer.seek(self._pos)
     self._buffer.write(content)
+    self._pos = self._buffer.tell()
 
   def seek(self, offset: int, whence: Literal[0, 1, 2] = 0) -> int:
-    return self._buffer.seek(offset, whence)
+    if whence == 1:
+      self._buffer.seek(self._pos)
+      if offset:
+        # Text buffers only support relative seeks of zero.
+        self._pos = self._buffer.seek(self._pos + offset)
+    else:
+      self._pos = self._buffer.seek(offset, whence)
+    return self._pos
 
   def truncate(self) -> None:
     """Drops the content of the file."""
     self._buffer.seek(0)
     self._buffer.truncate()
+    self._pos = 0
 
   def tell(self) -> int:
-    return self._buffer.tell()
+    return self._pos
 
   def flush(self) -> None:
     pass
 
   def close(self) -> None:
-    self.seek(0)
+    self._pos = 0
 
 
 class MemoryFileSystem(FileSystem):
@@ -277,18 +297,20 @@ class MemoryFileSystem(FileSystem):
   def open(
       self, path: Union[str, os.PathLike[str]], mode: str = 'r', **kwargs
   ) -> File:
-    file = self._locate(path)
-    if isinstance(file, dict):
+    # NOTE: the file system keeps the content (an io buffer) of each file, and
+    # every `open` returns a handle of its own.
+    buffer = self._locate(path)
+    if isinstance(buffer, dict):
       raise IsADirectoryError(path)
-    if ('w' in mode or 'a' in mode) and file is None:
+    if ('w' in mode or 'a' in mode) and buffer is None:
       parent_dir, name = self._parent_and_name(path)
       if isinstance(parent_dir, dict):
         buffer = io.BytesIO() if 'b' in mode else io.StringIO()
-        file = MemoryFile(buffer)
-        parent_dir[name] = file
+        parent_dir[name] = buffer
 
-    if file is None:
+    if buffer is None:
       raise FileNotFoundError(path)
+    file = MemoryFile(buffer)
     if 'w' in mode:
       # Writing starts from an empty file.
       file.truncate()
